@@ -58,6 +58,9 @@ type Scenario struct {
 	// that speaks the protocol by hand; RawN is the window it proposes.
 	RawClient func(w *World)
 	RawN      uint8
+	// Custom, when set, replaces the two endpoints by threads of its own
+	// (unit-level scenarios on one component).
+	Custom func(w *World)
 	// NoCloseAllowed: no endpoint may shut down by itself (keepalive off).
 	NoCloseAllowed bool
 	// Owns says which cross-cutting events are violations in this
@@ -819,6 +822,135 @@ func init() {
 		sc.Owns = map[string]bool{"panic": true}
 		sc.Cfg.Horizon = 20 * time.Second
 		sc.Cfg.DrainTime = 5 * time.Second
+		return sc
+	}
+}
+
+// ---------------------------------------------------------------- C18: concurrent use
+
+func init() {
+	// ticker2: two threads drive one IntervalAwareForceTicker exactly the
+	// way the send loop (wait for a tick, Reset) and the receive loop
+	// (Reset, IsActive, Pause on every packet) of a connection do, and a
+	// third one stops it; the "packet" arrives at the instant of a tick.
+	builders["ticker2"] = func(name string, p params) *Scenario {
+		sc := &Scenario{}
+		common(sc, p)
+		sc.Cfg.LockPoints = true
+		sc.Faults = FaultCfg{}
+		iv := p.dur("iv", 2*time.Second)
+		rounds := p.int("rounds", 2)
+		sc.Custom = func(w *World) {
+			tk := gbn.NewIntervalAwareForceTicker(iv)
+			tk.Resume()
+			done := make(chan struct{}, 2)
+			w.spawnApp("sendloop", func() {
+				for i := 0; i < rounds; i++ {
+					vrt.Point("sendloop.wait")
+					select {
+					case <-tk.Ticks():
+						vrt.Woke("sendloop.tick")
+						tk.Reset()
+					case <-time.After(iv + iv/2):
+						vrt.Woke("sendloop.timeout")
+					}
+				}
+				done <- struct{}{}
+			})
+			w.spawnApp("recvloop", func() {
+				for i := 0; i < rounds; i++ {
+					time.Sleep(iv)
+					vrt.Point("recvloop.packet")
+					tk.Reset()
+					if tk.IsActive() {
+						tk.Pause()
+					}
+					tk.Resume()
+				}
+				done <- struct{}{}
+			})
+			w.spawnApp("stopper", func() {
+				vrt.Point("stopper.wait")
+				<-done
+				vrt.Woke("stopper")
+				vrt.Point("stopper.wait")
+				<-done
+				vrt.Woke("stopper")
+				tk.Stop()
+			})
+		}
+		sc.Owns = map[string]bool{"panic": true, "leak": true}
+		sc.Final = append(sc.Final, finalDeadlock)
+		sc.NoDrainClose = true
+		sc.Cfg.Horizon = 30 * time.Second
+		sc.Cfg.DrainTime = 5 * time.Second
+		return sc
+	}
+	// tm3: three threads use one TimeoutManager the way the send loop, the
+	// receive loop and API callers do.
+	builders["tm3"] = func(name string, p params) *Scenario {
+		sc := &Scenario{}
+		common(sc, p)
+		sc.Cfg.LockPoints = true
+		sc.Faults = FaultCfg{}
+		sc.Custom = func(w *World) {
+			tm := gbn.NewTimeOutManager(nil, gbn.WithKeepalivePing(2*time.Second, time.Second))
+			w.spawnApp("sender", func() {
+				tm.Sent(&gbn.PacketSYN{N: 2}, false)
+				tm.Sent(&gbn.PacketData{Seq: 0}, false)
+				_ = tm.GetResendTimeout()
+				tm.Sent(&gbn.PacketData{Seq: 0}, true)
+				_ = tm.GetHandshakeTimeout()
+			})
+			w.spawnApp("receiver", func() {
+				tm.Received(&gbn.PacketSYN{N: 2})
+				_ = tm.GetResendTimeout()
+				tm.Received(&gbn.PacketACK{Seq: 0})
+				_ = tm.GetPingTime()
+			})
+			w.spawnApp("api", func() {
+				tm.SetSendTimeout(time.Second)
+				_ = tm.GetRecvTimeout()
+				tm.SetRecvTimeout(time.Second)
+				_ = tm.GetSendTimeout()
+				_ = tm.GetFinSendTimeout()
+			})
+		}
+		sc.Owns = map[string]bool{"panic": true, "leak": true}
+		sc.Final = append(sc.Final, finalDeadlock)
+		sc.NoDrainClose = true
+		sc.Cfg.Horizon = 10 * time.Second
+		sc.Cfg.DrainTime = time.Second
+		return sc
+	}
+	// coincide: a whole connection with keepalive on and lock points on;
+	// application traffic is timed to arrive exactly when the peer's ping
+	// timer fires, and several goroutines per side use the API at once.
+	builders["coincide"] = func(name string, p params) *Scenario {
+		sc := &Scenario{}
+		if !p.has("ka") {
+			p["ka"] = "2s,1s"
+		}
+		common(sc, p)
+		sc.Cfg.LockPoints = !p.has("nolocks")
+		sc.Faults = FaultCfg{}
+		at := p.dur("at", 2*time.Second)
+		sc.ClientScripts = [][]Op{
+			{{Kind: "sleep", D: at}, {Kind: "send", Data: payload('c', 0, -1)}, {Kind: "send", Data: payload('c', 1, -1)}},
+			{{Kind: "recv"}},
+			{{Kind: "setsend", D: time.Hour}, {Kind: "setrecv", D: time.Hour}, {Kind: "sleep", D: at}, {Kind: "setrecv", D: 2 * time.Hour}},
+		}
+		sc.ServerScripts = [][]Op{
+			{{Kind: "recv"}, {Kind: "recv"}},
+			{{Kind: "sleep", D: 2 * at}, {Kind: "send", Data: payload('s', 0, -1)}},
+			{{Kind: "sleep", D: 2*at + time.Second}, {Kind: "close"}},
+		}
+		sc.Goal = func(w *World) bool { return w.appsFinished() || w.s.Now() >= 3*at+5*time.Second }
+		sc.Monitors = append(sc.Monitors, monPrefix, monWindow)
+		sc.Owns = map[string]bool{"panic": true, "leak": true}
+		sc.Final = append(sc.Final, finalDeadlock)
+		sc.Cfg.Horizon = 40 * time.Second
+		sc.Cfg.DrainTime = 10 * time.Second
 		return sc
 	}
 }
